@@ -38,7 +38,7 @@ PENDING = {
 
 CHECKS = {
  "C13": dict(engine="reuse", category="exploration", design_ref="DESIGN.md §4.2",
-   text="Seeded search over operation histories on long-lived HarfbuzzShaper, harfbuzz.Buffer, font.Face, shaping.Segmenter, LineWrapper and segmenter.Segmenter objects (cache sizes, evictions, several faces of one font, in-place variation/ppem changes, abandoned paragraphs as per-run swarm choices); every operation is checked against a freshly constructed object (stateless reference model) and earlier results are re-compared until their documented invalidation point. Failures are ddmin-minimised to a replay file and confirmed in a fresh process. A clean batch is evidence over the sampled histories, not proof; this is the right level because the property quantifies over unbounded histories of a sequential API.",
+   text="Seeded search over operation histories on long-lived HarfbuzzShaper, harfbuzz.Buffer, font.Face, shaping.Segmenter, LineWrapper and segmenter.Segmenter objects (cache sizes, evictions, several faces of one font, in-place variation/ppem changes, abandoned paragraphs, calibrated feature sweeps — a text on which a feature is known to change the glyphs, shaped repeatedly with the feature's value or range moving — as per-run swarm choices); every operation is checked against a freshly constructed object (stateless reference model) and earlier results are re-compared until their documented invalidation point. Failures are ddmin-minimised to a replay file and confirmed in a fresh process. A clean batch is evidence over the sampled histories, not proof; this is the right level because the property quantifies over unbounded histories of a sequential API.",
    note="Trusted: a fresh object as specification; the corpus fonts as workload; deep copies isolate arguments. In-place Face mutation between Shape calls only with font cache size 0 (documented restriction).",
    technique="deterministic simulation: seeded operation histories vs fresh-object reference model, swarm-randomised cache knobs, ddmin replay"),
  "C14": dict(engine="fontmapsim", category="exploration", design_ref="DESIGN.md §4.3",
@@ -46,11 +46,11 @@ CHECKS = {
    note="Trusted: retainsBestMatches (C15) and the family substitution table content (read from the replica through a verif-tagged read-only hook); footprints of corpus fonts as computed by the library.",
    technique="deterministic simulation: seeded operation histories vs uncached replica and priority model, randomised cache sizes, file faults after indexing"),
  "C16": dict(engine="indexsim", category="fault_enumeration", design_ref="DESIGN.md §4.4",
-   text="Simulated disk and clock around the real index persistence and refresh code: seeded histories of file-system mutations (add/remove/replace/touch/rename, symlinks, nested and overlapping roots, half-copied fonts) with every mtime set by a simulated clock, boots through the real refreshSystemFontsIndex, crashes of the cache write at seeded points with crash images (prefix, empty, old, torn sector), corruption at rest, write faults (short write, ENOSPC, EIO, close error); oracles: round trip, totality on any image, crash atomicity, recovery equals boot without cache, incremental equals from-scratch. Per run a sub-space is enumerated exhaustively: every prefix length and every single-byte corruption (0x00, 0xFF, one bit) of a serialized index, and, below the compression layer, truncations and byte corruptions of the uncompressed payload and every prefix of the first entries with a consistent length field.",
+   text="Simulated disk and clock around the real index persistence and refresh code: seeded histories of file-system mutations (add/remove/replace/touch/rename, symlinks, nested and overlapping roots, half-copied fonts) with every mtime set by a simulated clock, boots through the real refreshSystemFontsIndex, crashes of the cache write at seeded points with crash images (prefix, empty, old, torn sector), corruption at rest, write faults (short write, ENOSPC, EIO, close error); round trips of synthetic indexes from empty to MiB-sized (tens of thousands of entries); oracles: round trip, totality on any image, crash atomicity, recovery equals boot without cache, incremental equals from-scratch. Per run a sub-space is enumerated exhaustively: every prefix length and every single-byte corruption (0x00, 0xFF, one bit) of a serialized index, and, below the compression layer, truncations and byte corruptions of the uncompressed payload and every prefix of the first entries with a consistent length field.",
    note="Trusted: the kernel tmpfs as directory tree; os.Chtimes round trip (verified at start-up); from-scratch scan as reference for incremental refresh. Corrupted images decoding to a different well-formed index are allowed by the property and only counted.",
    technique="deterministic simulation: simulated disk with volatile/durable images and crash points, simulated mtime clock, seeded file-system histories, exhaustive prefix/byte-corruption enumeration"),
  "C09": dict(engine="faultdisk", category="fault_enumeration", design_ref="DESIGN.md §4.1",
-   text="The font file is a simulated disk behind the opentype.Resource seam: seeded fault plans (truncation, bit flips, field overwrites, zeroed sectors, swapped table bodies biased to table boundaries and headers; transient EIO / early EOF / short reads at the k-th I/O call) against every corpus container kind, with loading, all face queries and shaping executed under deterministic tick and allocation budgets in an instrumented build; the systematic sub-family walks truncation at every table boundary and inside every table header and boundary values (0, 1, max, near-size, own value +-1) of every directory and header field completely. Added families: structure-aware adversarial plans written by the simulator (composite-glyph cycles and acyclic chains, CFF subroutine call chains, GSUB expansion chains and self-recursive lookups, cmap format 12 group bombs, one shared dimension nudged in one table only) and coverage-guided campaigns (greybox evolution of fault lists under branch-coverage feedback from the instrumented build). Oracles: no panic, error-or-faces, step and allocation budgets, reader fidelity (a returned table equals the image bytes), fault-free equivalence with a bytes.Reader load. Panics are identified by their innermost library frame, step-budget findings by the API call in progress, allocation findings by the dominant allocating function (second execution with MemProfileRate=1); known ones are listed in known_findings.json.",
+   text="The font file is a simulated disk behind the opentype.Resource seam: seeded fault plans (truncation, bit flips, field overwrites, zeroed sectors, swapped table bodies biased to table boundaries and headers; transient EIO / early EOF / short reads at the k-th I/O call) against every corpus container kind, with loading, all face queries and shaping executed under deterministic tick and allocation budgets in an instrumented build; the systematic sub-family walks truncation at every table boundary and inside every table header and boundary values (0, 1, max, near-size, own value +-1) of every directory and header field completely. Added families: structure-aware adversarial plans written by the simulator (composite-glyph cycles and acyclic chains, CFF subroutine call chains, GSUB expansion chains and self-recursive lookups, cmap format 12 group bombs, one shared dimension nudged in one table only, 'kern' format 3 grafts with one element at its bound, FDSelect sentinel/range/font-dict fields of CID-keyed CFF fonts rewritten together) and coverage-guided campaigns (greybox evolution of fault lists under branch-coverage feedback from the instrumented build). Oracles: no panic, error-or-faces, step and allocation budgets, reader fidelity (a returned table equals the image bytes), fault-free equivalence with a bytes.Reader load. Panics are identified by their innermost library frame, step-budget findings by the API call in progress, allocation findings by the dominant allocating function (second execution with MemProfileRate=1); known ones are listed in known_findings.json.",
    note="Trusted: budgets linear in the image size calibrated two orders of magnitude above the pristine corpus; go/ast instrumentation (text splice) preserves semantics; stdlib zlib/gzip time is covered only by the wall-clock backstop.",
    technique="deterministic simulation: faulty simulated disk behind the Resource interface; seeded, systematic, structure-aware adversarial and coverage-guided fault plans; tick/allocation budgets in an instrumented build"),
  "C17": dict(engine="schedsim", category="exploration", design_ref="DESIGN.md §4.5",
